@@ -213,7 +213,10 @@ pub(crate) fn get_object_ref_for_vo_addr(vo_addr: Address) -> ObjectReference {
 fn is_internal_ptr<VM: VMBinding>(obj: ObjectReference, internal_ptr: Address) -> bool {
     let obj_start = obj.to_object_start::<VM>();
     let obj_size = VM::VMObjectModel::get_current_size(obj);
-    internal_ptr < obj_start + obj_size
+    // Internal pointers are in `[obj.to_raw_address(), obj_start + obj_size)`.  The lower bound
+    // matters when the caller found `obj` without searching downwards from `internal_ptr` (the
+    // large object space looks at whole pages) and `obj`'s reference is above its object start.
+    internal_ptr >= obj.to_raw_address() && internal_ptr < obj_start + obj_size
 }
 
 /// Check if the address could be an internal pointer based on where VO bit is set.
